@@ -5,7 +5,7 @@ package main
 // C55: incomplete backups are reported.  Two families of cases:
 //  hook: real source trees, backup run through cobra with backupFSTestHook installing a fault
 //        injecting fs.FS (vanish / error at OpenFile, Stat, MakeReadable, re-Stat, type change,
-//        ToNode, Readdirnames, Read); observables: returned error class, new snapshot?, items
+//        ToNode, Readdirnames (no names, or a non-empty prefix of the names plus an error), Read); observables: returned error class, new snapshot?, items
 //        listed in the snapshot, items in JSON "error" messages;
 //  proc: the same binary executed as the real restic CLI (main(), real exit status), as uid 65534
 //        with mode-000 files/dirs and missing targets.
@@ -136,7 +136,16 @@ func (f *c55File) Readdirnames(n int) ([]string, error) {
 	if f.ft == "ErrReaddir" {
 		return nil, c55Err("readdirent", f.name, syscall.EIO)
 	}
-	return f.File.Readdirnames(n)
+	names, err := f.File.Readdirnames(n)
+	if f.ft == "ErrReaddirPartial" && err == nil {
+		// the listing breaks off part-way: like os.File.Readdirnames, the names read so far plus the error
+		// (all but the last name; a single name stays, so the prefix is non-empty whenever the directory is)
+		if len(names) > 1 {
+			names = names[:len(names)-1]
+		}
+		return names, c55Err("readdirent", f.name, syscall.EIO)
+	}
+	return names, err
 }
 
 func (f *c55File) Read(p []byte) (int, error) {
@@ -149,7 +158,7 @@ func (f *c55File) Read(p []byte) (int, error) {
 // ---- generation ----
 
 var c55FileFaults = []string{"VanishOpen", "VanishStat", "ErrOpen", "ErrStat", "ErrReopen", "GoneReopen", "ErrRestat", "TypeChanged", "ErrNode", "ErrRead"}
-var c55DirFaults = []string{"VanishOpen", "VanishStat", "ErrOpen", "ErrStat", "ErrReopen", "GoneReopen", "TypeChanged", "ErrNode", "ErrReaddir"}
+var c55DirFaults = []string{"VanishOpen", "VanishStat", "ErrOpen", "ErrStat", "ErrReopen", "GoneReopen", "TypeChanged", "ErrNode", "ErrReaddir", "ErrReaddirPartial", "ErrReaddirPartial"}
 var c55OtherFaults = []string{"VanishOpen", "VanishStat", "ErrOpen", "ErrStat", "ErrNode"}
 
 type c55Gen struct {
